@@ -10,6 +10,7 @@ import (
 	"verif/internal/corpus"
 	"verif/internal/lab"
 	"verif/internal/model/jsonmap"
+	"verif/internal/report"
 	"verif/internal/values"
 )
 
@@ -29,13 +30,23 @@ func sampleFeats(c *Ctx, feats []corpus.Feature, keepEvery int) []corpus.Feature
 		}
 		byAnn[f.Ann] = append(byAnn[f.Ann], f)
 	}
+	known, _ := report.LoadKnown()
+	named := func(f corpus.Feature) bool {
+		fam := strings.SplitN(f.ID, "/", 2)[0]
+		for _, k := range known {
+			if k.Status == "open" && k.Property == c.R.Prop && (strings.Contains(k.Case, "/"+fam+"/") || strings.Contains(k.Case, ","+fam+",") || strings.Contains(k.Case, "{"+fam+",") || strings.Contains(k.Case, ","+fam+"}")) {
+				return true
+			}
+		}
+		return false
+	}
 	var out []corpus.Feature
 	for _, a := range order {
 		fs := byAnn[a]
 		off := int(c.Seed) % keepEvery
 		picked := false
 		for i, f := range fs {
-			if (i+off)%keepEvery == 0 {
+			if (i+off)%keepEvery == 0 || named(f) {
 				out = append(out, f)
 				picked = true
 			}
